@@ -32,6 +32,8 @@ func main() {
 		i, _ := strconv.Atoi(os.Args[4])
 		n, _ := strconv.Atoi(os.Args[5])
 		engine.WorkerMain(os.Args[2], os.Args[3], i, n, os.Args[6])
+	case "c18steps":
+		os.Exit(checks.C18StepDebug())
 	case "c18first":
 		if len(os.Args) < 3 {
 			usage()
